@@ -331,6 +331,13 @@ func drains(c *Ctx, fn *ssa.Function, ch *types.Var, depth int) bool {
 					calls = append(calls, i)
 				}
 			}
+			// … or register it with defer (`func (p *parser) finish(errp *error) { defer p.lexer.drain(); … }`): it runs
+			// when the wrapper returns or panics
+			if d, ok := i.(*ssa.Defer); ok {
+				if f := calleeFunc(&d.Call); f != nil && c.w.inModule(f) && f != fn && drains(c, f, ch, depth-1) {
+					calls = append(calls, i)
+				}
+			}
 		})
 		if len(calls) > 0 {
 			isCall := func(i ssa.Instruction) bool {
@@ -702,14 +709,52 @@ func c09Panics(c *Ctx) {
 					c.r.bad(rule, key, "panic with a value of type "+typeString(x.X.Type())+" that is not an error", []string{c.w.ipos(i)})
 				}
 			default:
-				// re-panic of the recovered value: must be under a successful runtime.Error assertion
+				// re-panic of the recovered value: must be under a successful runtime.Error assertion. The recovered value may
+				// be a parameter of a helper that every caller hands the result of recover() (`handlePanic(recover(), errp)`).
+				recovered := ssa.Value(nil)
 				if call, ok := p.X.(*ssa.Call); ok {
 					if b, ok := call.Call.Value.(*ssa.Builtin); ok && b.Name() == "recover" {
+						recovered = call
+					}
+				}
+				if par, ok := p.X.(*ssa.Parameter); ok {
+					pf := par.Parent()
+					idx := -1
+					for k, q := range pf.Params {
+						if q == par {
+							idx = k
+						}
+					}
+					if node := c.w.CG.Nodes[pf]; node != nil && idx >= 0 && len(node.In) > 0 {
+						all := true
+						for _, e := range node.In {
+							if e.Site == nil || e.Site.Common().StaticCallee() != pf || idx >= len(e.Site.Common().Args) {
+								all = false
+								break
+							}
+							rc, isCall := e.Site.Common().Args[idx].(*ssa.Call)
+							if !isCall {
+								all = false
+								break
+							}
+							if b, ok := rc.Call.Value.(*ssa.Builtin); !ok || b.Name() != "recover" {
+								all = false
+								break
+							}
+						}
+						if all {
+							recovered = par
+						}
+					}
+				}
+				if recovered != nil {
+					{
+						call := recovered
 						guarded := false
 						for _, cm := range cmpsAt(p) {
 							if cm.Y == nil && cm.Op == token.EQL {
 								if e, ok := cm.X.(*ssa.Extract); ok && e.Index == 1 {
-									if ta, ok := e.Tuple.(*ssa.TypeAssert); ok && ta.X == ssa.Value(call) && typeIs(ta.AssertedType, "runtime", "Error") {
+									if ta, ok := e.Tuple.(*ssa.TypeAssert); ok && ta.X == call && typeIs(ta.AssertedType, "runtime", "Error") {
 										guarded = true
 									}
 								}
